@@ -65,7 +65,7 @@ ACCEPTS: list[str | None] = [
     None, "*/*", "application/json", "text/html", "text/html,application/xhtml+xml,application/xml;q=0.9,*/*;q=0.8",
     "application/json, text/html;q=0.1", "TEXT/HTML", "text/htm", "xtext/htmlx", "", "text/plain", "text /html",
 ]
-DETAILS = ["", "bad token", 'quote" <b>&amp;\'x\'', "ünï—cödé ✓", "x" * 300, "line1\nline2", " "]
+DETAILS = ["", "bad token", 'quote" <b>&amp;\'x\'', "ünï—cödé ✓", "x" * 90, "line1\nline2", " "]
 
 
 def translate(ctx: Any) -> None:
@@ -166,8 +166,20 @@ def _depends_on_proxy(cfg: Any) -> bool:
 
 
 # --------------------------------------------------------------------------- Coq rendering
+def cstr(s: str) -> str:
+    """str -> list of code points, as the compact literal decoded by M_Unauthorized.u (fast to parse)."""
+    out = []
+    for ch in s:
+        o = ord(ch)
+        if 32 <= o < 127 and ch not in '\\"':
+            out.append(ch)
+        else:
+            out.append("\\%06x" % o)
+    return '(u "' + "".join(out) + '")'
+
+
 def _c_cfg(cfg: Any) -> str:
-    from vlib.coqterm import cN, clist, cstr
+    from vlib.coqterm import cN, clist
 
     k = cfg[0]
     if k == "leaf":
@@ -188,8 +200,6 @@ def _c_reason_opt(v: str | None) -> str:
 
 
 def _c_outcome(d: list[Any]) -> str | None:
-    from vlib.coqterm import cstr
-
     k = d[0]
     if k == "ok":
         return "OOk"
@@ -207,7 +217,7 @@ def _c_outcome(d: list[Any]) -> str | None:
 
 
 def _c_json(v: Any) -> str:
-    from vlib.coqterm import cbool, clist, cstr
+    from vlib.coqterm import cbool, clist
 
     if v is None:
         return "JNull"
@@ -220,12 +230,12 @@ def _c_json(v: Any) -> str:
     if isinstance(v, list):
         return f"(JArr {clist(_c_json(x) for x in v)})"
     if isinstance(v, dict):
-        return "(JObj " + clist(f"({cstr(k)}, {_c_json(x)})" for k, x in v.items()) + ")"
+        return "(JObj " + clist(f"pair {cstr(k)} {_c_json(x)}" for k, x in v.items()) + ")"
     raise AssertionError(type(v))
 
 
 def _opt(x: str | None) -> str:
-    from vlib.coqterm import copt, cstr
+    from vlib.coqterm import copt
 
     return copt(None if x is None else cstr(x))
 
@@ -290,7 +300,7 @@ def _spec_codes(ctx: Any) -> list[str]:
 
 # --------------------------------------------------------------------------- the check
 def run(ctx: Any) -> None:
-    from vlib.coqterm import cN, cbool, clist, cstr
+    from vlib.coqterm import cN, cbool, clist
 
     translate(ctx)
     ctx.prove(
@@ -336,7 +346,7 @@ def run(ctx: Any) -> None:
     heavy = [s for s in cat if s[0] != "ok"]
 
     cfgs = _fixed_cfgs()
-    for _ in range(25 if quick else 150):
+    for _ in range(18 if quick else 150):
         ids = _Ids()
         c = _rand_cfg(rng, ids, rng.choice([1, 2, 2, 3]))
         pah = rng.choice([None, None, (), ("X-Op-Header",), ("X-Proxy-A", "X-Op-Header")])
@@ -345,7 +355,9 @@ def run(ctx: Any) -> None:
     ctx.rule = ("server cases = (authenticator composition tree, proxy_auth_headers, proxy_proof_required) x per-leaf behaviour (ok | AuthFailure r | "
                 "ValueError kinds | PermissionError kinds | ProofError | AuthUnavailableError | other) x Accept x {POST, GET}; client cases = 401 body; "
                 "distinct by the full case; non-trivial = at least one leaf raises (server) / every body (client)")
-    server_cases: list[tuple[str, str]] = []
+    server_cases: list[Any] = []
+    hint_cases: list[tuple[str, str]] = []
+    hint_meta: list[dict[str, Any]] = []
     server_meta: list[dict[str, Any]] = []
     envelopes: list[tuple[bytes, str]] = []
 
@@ -380,19 +392,21 @@ def run(ctx: Any) -> None:
         top_auth = S.build(cfg)
         depends = _depends_on_proxy(cfg) or bool(pah) or ppr
         notes_seen: set[tuple[Any, Any]] = set()
+        app_note: list[str] = []   # the first note text this app put into a JSON envelope
+        first_case = len(server_cases)
 
         # scenarios
         scen: list[dict[int, list[Any]]] = [{}]
         scen.append({i: ["af", "MISSING_CREDENTIAL", ""] for i in synth})
         for i in synth:
-            picks = heavy if (ci < 12 and not quick) or len(synth) == 1 else rng.sample(heavy, 6 if quick else 14)
+            picks = heavy if (ci < 12 and not quick) or (len(synth) == 1 and ci < 6) else rng.sample(heavy, (2 if len(synth) > 3 else 3) if quick else 14)
             for sp in picks:
                 base = {j: rng.choice([["af", "MISSING_CREDENTIAL", ""], ["af", "MISSING_CREDENTIAL", "none"], ["ve", "nope"], ["ok"]]) for j in synth if j != i}
                 base = {j: v for j, v in base.items() if v != ["ok"] or rng.random() < 0.3}
                 scen.append({**{j: v for j, v in base.items()}, i: sp})
-        for _ in range(6 if quick else 30):
+        for _ in range(3 if quick else 30):
             scen.append({i: rng.choice(cat) for i in synth if rng.random() < 0.9})
-        for _ in range(3 if quick else 10):
+        for _ in range(2 if quick else 10):
             scen.append({i: rng.choice([["af", "MISSING_CREDENTIAL", ""], ["af", "MISSING_CREDENTIAL", "x"], ["af", "INVALID_CREDENTIAL", "y"], ["duckpe", "MISSING_CREDENTIAL", "z"]]) for i in synth})
 
         for assign in scen:
@@ -485,18 +499,29 @@ def run(ctx: Any) -> None:
             outs = [(i, _c_outcome(leaf_out[i])) for i, _, _ in lv]
             if any(o is None for _, o in outs):
                 continue
-            env = clist(f"({cN(i)}, {o})" for i, o in outs)
-            inp = f"(({_c_cfg(cfg)}, {clist(cstr(h) for h in (pah or ()))}, {cbool(ppr)}), {env}, {_opt(accept)})"
+            env = clist(f"pair {cN(i)} {o}" for i, o in outs)
+            inp = f"(pair (pair (pair (pair {_c_cfg(cfg)} {clist(cstr(h) for h in (pah or ()))}) {cbool(ppr)}) {env}) {_opt(accept)})"
             st = obs["status"]
             if top[0] == "ok" and st not in (401, 500, 503):
                 # the authenticator accepted: whatever the route answers (200, 405, a page) is "passed" = 200 in the model;
                 # only the two VGI rejection headers are still compared (they must be absent)
                 st = 200
                 obs = {**obs, "h_cache": None, "h_retry": None}
-            hd = f"({cN(st)}, ({_opt(obs['h_reason'])}, ({_opt(obs['h_proxy'])}, ({_opt(obs['h_cache'])}, {_opt(obs['h_retry'])}))))"
-            bd = f"({cN(obs['kind'])}, ({_opt(obs['b_error'])}, ({_opt(obs['b_reason'])}, ({_opt(obs['b_detail'])}, {_opt(obs['b_hint'])}))))"
-            server_cases.append((inp, f"({hd}, ({bd}, {clist(cN(i) for i in consulted)}))"))
+            hd = f"(pair {cN(st)} (pair {_opt(obs['h_reason'])} (pair {_opt(obs['h_proxy'])} (pair {_opt(obs['h_cache'])} {_opt(obs['h_retry'])}))))"
+            if obs["kind"] in (1, 2) and obs["b_hint"] and not app_note:
+                app_note.append(obs["b_hint"])
+            bd = (obs["kind"], obs["b_error"], obs["b_reason"], obs["b_detail"], obs["b_hint"])
+            server_cases.append((inp, (hd, bd, clist(cN(i) for i in consulted))))  # rendered after the app's note is known
             server_meta.append(repl)
+        # the note text is compared with the model once per app; per request it is abbreviated when it is that text
+        for k in range(first_case, len(server_cases)):
+            inp_k, (hd_k, bd_k, cons_k) = server_cases[k]
+            hint_k = None if bd_k[4] is None else ("\x01" if app_note and bd_k[4] == app_note[0] else bd_k[4])
+            bd_s = f"(pair {cN(bd_k[0])} (pair {_opt(bd_k[1])} (pair {_opt(bd_k[2])} (pair {_opt(bd_k[3])} {_opt(hint_k)}))))"
+            server_cases[k] = (inp_k, f"(pair {hd_k} (pair {bd_s} {cons_k}))")
+        if notes_seen:
+            hint_cases.append((f"(pair (pair {_c_cfg(cfg)} {clist(cstr(h) for h in (pah or ()))}) {cbool(ppr)})", cstr(app_note[0] if app_note else "")))
+            hint_meta.append({"config": cfg, "proxy_auth_headers": pah, "proxy_proof_required": ppr, "note": app_note[0] if app_note else None})
         # identical note on every 401 of this service
         if len(notes_seen) > 1:
             ctx.violation("proxy-note-varies-across-401s", f"one service produced {len(notes_seen)} different notes", {"config": cfg, "proxy_auth_headers": pah, "notes": sorted(map(str, notes_seen))})
@@ -504,13 +529,14 @@ def run(ctx: Any) -> None:
             # spec section 5 MUST (the statement only says "present only when"): reported through the model comparison, not here
             ctx.count("note_absent_on_proxy_dependent_service")
 
+    ctx.log(f"server: {len(cfgs)} apps, {len(server_cases)} requests answered")
     o = "option_eqb bytes_eqb"
     five = f"pair_eqb N.eqb (pair_eqb ({o}) (pair_eqb ({o}) (pair_eqb ({o}) ({o}))))"
-    hdr = "From Coq Require Import List NArith Bool.\nFrom VGI Require Import M_Unauthorized Corr.\nImport ListNotations.\nOpen Scope N_scope."
+    hdr = "From Coq Require Import String.\nFrom Coq Require Import List NArith Bool.\nFrom VGI Require Import M_Unauthorized Corr.\nImport ListNotations.\nOpen Scope N_scope."
     o5 = "(N * (option str * (option str * (option str * option str))))"
     ok, bad, clog = ctx.coq_mismatches(
         hdr, "run_case", f"pair_eqb ({five}) (pair_eqb ({five}) (list_eqb N.eqb))", server_cases,
-        "(cfg * list str * bool) * list (N * outcome) * option str", f"{o5} * ({o5} * list N)", shard=150,
+        "(cfg * list str * bool) * list (N * outcome) * option str", f"{o5} * ({o5} * list N)", shard=400,
     )
     ctx.count("model_cases_server", len(server_cases))
     ctx.obligation("correspondence:M_Unauthorized.run_case", "correspondence", ok and not bad, clog if not ok else f"{len(bad)} of {len(server_cases)} cases disagree")
@@ -518,6 +544,16 @@ def run(ctx: Any) -> None:
         shown = ctx.coq_show(hdr, f"run_case {server_cases[i][0]}")
         ctx.violation("model-impl-disagree-server", "implementation and model answer a request differently", {**server_meta[i], "model": shown[-1200:]})
 
+    seen_h: set[tuple[str, str]] = set()
+    keep = [k for k, c in enumerate(hint_cases) if not (c in seen_h or seen_h.add(c))]
+    hint_cases = [hint_cases[k] for k in keep]
+    hint_meta = [hint_meta[k] for k in keep]
+    ok3, bad3, clog3 = ctx.coq_mismatches(hdr, "run_hint", "bytes_eqb", hint_cases, "cfg * list str * bool", "str", shard=400)
+    ctx.count("model_cases_hint", len(hint_cases))
+    ctx.obligation("correspondence:M_Unauthorized.run_hint", "correspondence", ok3 and not bad3, clog3 if not ok3 else f"{len(bad3)} of {len(hint_cases)} apps disagree")
+    for i in bad3[:3]:
+        ctx.violation("model-impl-disagree-proxy-note", "the note of a service differs from the model's build_proxy_hint of its declared headers", hint_meta[i])
+    ctx.log("server correspondence evaluated")
     # ----------------------------------------------------------------------- client
     from vgi_rpc.http._client import _open_response_stream, _parse_unauthorized
     from vgi_rpc.http._unauthorized import AuthenticationError, AuthReason
@@ -609,15 +645,15 @@ def run(ctx: Any) -> None:
         if lo[0] == "val" and (_depth(lo[1]) > 300 or len(content) > 20_000):
             ctx.count("client_cases_oracle_only")
             continue
-        text = content.decode(errors="replace").strip()[:2000]
+        text = content.decode(errors="replace").strip()[:640]
         lo_c = f"(LVal {_c_json(lo[1])})" if lo[0] == "val" else f"(LExc {lo[1]})"
         if raised is None:
             idx = ORDER.index(res.reason.value) if res.reason.value in ORDER else 99
-            out = f"(0, ({cN(idx)}, ({cstr(res.detail)}, {cstr(res.proxy_hint)})))"
+            out = f"(pair 0 (pair {cN(idx)} (pair {cstr(res.detail)} {cstr(res.proxy_hint)})))"
         else:
             code = {"ValueError": 1, "RecursionError": 2}.get(type(raised).__name__, 3)
-            out = f"({code}, (0, ({cstr('')}, {cstr('')})))"
-        client_cases.append((f"({lo_c}, {cstr(text)})", out))
+            out = f"(pair {code} (pair 0 (pair {cstr('')} {cstr('')})))"
+        client_cases.append((f"(pair {lo_c} {cstr(text)})", out))
         client_meta.append(repl)
     # end to end: the client reads the reason the server put in the header
     for content, hreason in envelopes:
@@ -630,10 +666,11 @@ def run(ctx: Any) -> None:
             ctx.violation("client-reads-different-reason-than-header", f"server header {hreason!r}, client reason {getattr(getattr(e, 'reason', None), 'value', None)!r}", {"body": content.decode('utf-8', 'replace')[:400]})
     ctx.count("end_to_end_envelopes", len(envelopes))
 
+    ctx.log(f"client: {len(bodies)} bodies parsed")
     hdr_c = hdr + "\nFrom VGI Require Import G_Unauthorized."
     ok2, bad2, clog2 = ctx.coq_mismatches(
         hdr_c, "run_client_with gen_client_suppressed gen_max_detail", "pair_eqb N.eqb (pair_eqb N.eqb (pair_eqb bytes_eqb bytes_eqb))", client_cases,
-        "loads * str", "N * (N * (str * str))", shard=60,
+        "loads * str", "N * (N * (str * str))", shard=400,
     )
     ctx.count("model_cases_client", len(client_cases))
     ctx.obligation("correspondence:M_Unauthorized.run_client_with", "correspondence", ok2 and not bad2, clog2 if not ok2 else f"{len(bad2)} of {len(client_cases)} cases disagree")
